@@ -289,10 +289,11 @@ class _FilesystemDataSource(DataSource):
                     # Filter down to files that begin with file_prefix
                     if entry.name.startswith(file_prefix):
                         entry_name = unquote(entry.name)
-                        if entry_name.endswith(".link"):
-                            entry_name = entry_name[
-                                0:-5
-                            ]  # strip .link off end of string
+                        # A file ending in .link is the pointer of a key: strip .link off the end
+                        # of the string. A directory is a key prefix that just happens to end so
+                        # (e.g. a function whose version is "1.link") and keeps its name.
+                        if entry_name.endswith(".link") and not entry.is_dir():
+                            entry_name = entry_name[0:-5]
                         if endswith is not None and not entry_name.endswith(endswith):
                             continue
                         count += 1
